@@ -362,6 +362,25 @@ def replay_c08_fqp_adhoc(args):
             for T in (RefT, OptT):
                 if _ints(T(a) * T(b)) != exp:
                     bad.append((T.__name__, d, a, b, mc))
+    # FQ12 / FQ2 SUBCLASSES (their own __init__) with dense random moduli over small and large primes
+    for q in (3, 7, p):
+        for _ in range(3):
+            mc12 = tuple(rng.randrange(q) for _ in range(12))
+            mc2 = tuple(rng.randrange(q) for _ in range(2))
+            for M in (refM, optM):
+                class T12(M.FQ12):
+                    field_modulus = q
+                    FQ12_MODULUS_COEFFS = mc12
+
+                class T2(M.FQ2):
+                    field_modulus = q
+                    FQ2_MODULUS_COEFFS = mc2
+                a = [rng.randrange(q) for _ in range(12)]
+                b = [rng.randrange(q) for _ in range(12)]
+                if _ints(T12(a) * T12(b)) != _model_mul(a, b, list(mc12), q):
+                    bad.append((M.__name__.split(".")[-1], "FQ12 subclass", q if q < 100 else "p"))
+                if _ints(T2(a[:2]) * T2(b[:2])) != _model_mul(a[:2], b[:2], list(mc2), q):
+                    bad.append((M.__name__.split(".")[-1], "FQ2 subclass", q if q < 100 else "p"))
     return (len(bad) > 0), "c08_fqp_adhoc: %d mismatches; first %s" % (len(bad), str(bad[:1])[:300])
 
 
@@ -1134,6 +1153,15 @@ def replay_bls_aggregate(args):
         for perm in list(itertools.permutations(sigs[:n]))[:6]:
             if S.Aggregate(list(perm)) != exp:
                 bad.append(("order/sum", n))
+    from py_ecc.optimized_bls12_381 import neg
+    a_, b_ = sigs[0], sigs[1]
+    na = G2_to_signature(neg(signature_to_G2(a_)))
+    for lst in ([a_, a_], [a_, na, a_], [a_, b_, a_], [a_, a_, a_, b_]):
+        acc = Z2
+        for x_ in lst:
+            acc = add(acc, signature_to_G2(x_))
+        if S.Aggregate(list(lst)) != G2_to_signature(acc):
+            bad.append(("repeated entries", len(lst)))
     for badlist in ([], [sigs[0][:95]], [sigs[0], sigs[1] + b"\x00"]):
         try:
             S.Aggregate(badlist)
@@ -2109,7 +2137,14 @@ def replay_c05_guards(args):
     opt = args["impl"] == "opt"
     offP = (m.FQ(1), m.FQ(1), m.FQ(1)) if opt else (m.FQ(1), m.FQ(1))
     offQ = (m.FQ2([1, 1]), m.FQ2([1, 2]), m.FQ2.one()) if opt else (m.FQ2([1, 1]), m.FQ2([1, 2]))
-    for Q, P, nm in ((offQ, m.G1, "Q off curve"), (m.G2, offP, "P off curve"), (offQ, offP, "both off curve")):
+    cases = [(offQ, m.G1, "Q off curve"), (m.G2, offP, "P off curve"), (offQ, offP, "both off curve")]
+    if opt:
+        s2, s1 = m.FQ2([3, 5]), m.FQ(7)
+        cases += [(tuple(c * s2 for c in offQ), m.G1, "Q off curve, z != 1"), (m.G2, tuple(c * s1 for c in offP), "P off curve, z != 1"),
+                  ((m.FQ2.one(), m.FQ2.one(), m.FQ2.zero()), offP, "Q infinity, P off curve"), (offQ, (m.FQ.one(), m.FQ.one(), m.FQ.zero()), "P infinity, Q off curve")]
+    else:
+        cases += [(None, offP, "Q infinity, P off curve"), (offQ, None, "P infinity, Q off curve")]
+    for Q, P, nm in cases:
         try:
             m.pairing(Q, P)
             bad.append((nm, "paired"))
@@ -2236,6 +2271,44 @@ def replay_c20_purity(args):
               ("secp256k1", lambda: (secp256k1.privtopub(b"\x05" * 32), secp256k1.ecdsa_raw_recover(b"\x01" * 32, secp256k1.ecdsa_raw_sign(b"\x01" * 32, b"\x05" * 32)),
                                       secp256k1.multiply(secp256k1.G, -3), secp256k1.add(secp256k1.G, secp256k1.G))),
               ("swu/iso", lambda: (ob.optimized_swu_G2(ob.FQ2([1, 2])), ob.iso_map_G1(ob.FQ(1), ob.FQ(2), ob.FQ(3))))]
+    from eth_utils import ValidationError
+
+    def refused(fn_):
+        try:
+            fn_()
+        except ValidationError:
+            return "refused"
+        return "ok"
+    bad_sk = int(args["sk"]) if str(args.get("sk", "")).lstrip("-").isdigit() else 0
+    for bsk in (bad_sk, 0, _R, -1):
+        calls += [("refusing PopProve(%d...)" % (bsk % 1000), lambda bsk=bsk: refused(lambda: S.PopProve(bsk))),
+                  ("refusing Sign", lambda bsk=bsk: refused(lambda: bls.G2Basic.Sign(bsk, b"m"))), ("Sign after a refusal", lambda: S.Sign(sk, b"m"))]
+    # constructors must not rewrite caller-owned lists
+    from py_ecc import fields as F_
+
+    def ctor_keeps_list(K, n):
+        lst = [-1 - i for i in range(n)]
+        keep = list(lst)
+        K(lst)
+        return lst == keep
+    for nm in ("bn128_FQ2", "optimized_bn128_FQ2", "bls12_381_FQ12", "optimized_bls12_381_FQ12"):
+        K = getattr(F_, nm)
+        calls.append((nm + " constructor keeps the caller's list", lambda K=K: ctor_keeps_list(K, K.degree)))
+    # ad-hoc instantiations in both orders
+    from py_ecc.fields import field_elements as refM_, optimized_field_elements as optM_
+
+    def adhoc(Mx, order):
+        outs = []
+        for mc in order:
+            T = type("AdHoc", (Mx.FQ2,), {"field_modulus": 7, "FQ2_MODULUS_COEFFS": mc})
+            x = T([0, 1])
+            outs.append((mc, [int(c) for c in (x * x).coeffs]))
+        return sorted(outs)
+    for Mx in (refM_, optM_):
+        calls.append((Mx.__name__ + " ad-hoc GF(7^2) with two moduli (order A)", lambda Mx=Mx: adhoc(Mx, [(1, 0), (2, 0)])))
+        calls.append((Mx.__name__ + " ad-hoc GF(7^2) with two moduli (order B)", lambda Mx=Mx: adhoc(Mx, [(2, 0), (1, 0)])))
+        exp = sorted([((1, 0), [6, 0]), ((2, 0), [5, 0])])
+        calls.append((Mx.__name__ + " ad-hoc values", lambda Mx=Mx, exp=exp: adhoc(Mx, [(2, 0), (1, 0)]) == exp and adhoc(Mx, [(1, 0), (2, 0)]) == exp))
     first = {}
     for name, th in calls:
         k0, m0 = list(keys), list(msgs)
@@ -2263,4 +2336,44 @@ def replay_c20_purity(args):
     d = statefp.diff(base, statefp.state_fp())
     if d:
         bad.append(("final", "state differs from the post-import snapshot", d[:3]))
+    for name, v in first.items():
+        if v is False:
+            bad.append((name, "returned False"))
+    if args.get("what") == "sources":
+        import os
+        found, allowed, n = statefp.scan_sources(os.path.dirname(os.path.dirname(py_ecc.__file__)))
+        if found:
+            bad.append(("sources", found[:2]))
     return (len(bad) > 0), "c20_purity: %d findings %s" % (len(bad), str(bad[:3])[:300])
+
+
+
+def replay_bls_vectors(args):
+    """SkToPk / Sign / PopProve against the IETF definition evaluated directly: tags written out literally, hash_to_G2 and
+    the compressed encodings called with the expected arguments; includes messages that start with the signer's public key."""
+    import hashlib
+    from py_ecc import bls
+    from py_ecc.bls.hash_to_curve import hash_to_G2
+    from py_ecc.bls.g2_primitives import G1_to_pubkey, G2_to_signature
+    from py_ecc.optimized_bls12_381 import G1, multiply
+    tags = {"G2Basic": b"BLS_SIG_BLS12381G2_XMD:SHA-256_SSWU_RO_NUL_", "G2MessageAugmentation": b"BLS_SIG_BLS12381G2_XMD:SHA-256_SSWU_RO_AUG_",
+            "G2ProofOfPossession": b"BLS_SIG_BLS12381G2_XMD:SHA-256_SSWU_RO_POP_"}
+    pop_tag = b"BLS_POP_BLS12381G2_XMD:SHA-256_SSWU_RO_POP_"
+    bad = []
+    for sk in (1, 0x1234567, _R - 1):
+        pk = G1_to_pubkey(multiply(G1, sk))
+        for name, tag in tags.items():
+            S = getattr(bls, name)
+            if S.SkToPk(sk) != pk:
+                bad.append((name, "SkToPk", sk))
+            for msg in (b"", b"abc", pk, pk + b"tail", b"\x00" * 64):
+                m2 = pk + msg if name == "G2MessageAugmentation" else msg
+                exp = G2_to_signature(multiply(hash_to_G2(m2, tag, hashlib.sha256), sk))
+                if S.Sign(sk, msg) != exp:
+                    bad.append((name, "Sign", len(msg)))
+        exp = G2_to_signature(multiply(hash_to_G2(pk, pop_tag, hashlib.sha256), sk))
+        if bls.G2ProofOfPossession.PopProve(sk) != exp:
+            bad.append(("PopProve", sk))
+        if len(bad) > 3:
+            break
+    return (len(bad) > 0), "bls_vectors: %d mismatches %s" % (len(bad), str(bad[:3])[:200])
